@@ -40,8 +40,8 @@ def run_one(arg):
     try:
         out = common.run_real(['cli_session'], d)
     except Exception as e:
-        return {'text': text, 'findings': ['harness:%s' % str(e)[-200:]], 'exc1': None, 'replay': d}
-    return {'text': text, 'findings': out['findings'], 'exc1': out['exc1'], 'replay': d}
+        return {'text': text, 'char': c, 'findings': ['harness:%s' % str(e)[-200:]], 'exc1': None, 'replay': d}
+    return {'text': text, 'char': c, 'findings': out['findings'], 'exc1': out['exc1'], 'replay': d}
 
 
 def extra(c, tier):
@@ -65,11 +65,21 @@ def extra(c, tier):
             kind = (rr['findings'][0].split(':')[0] if rr['findings'] else 'exception:%s' % rr['exc1'])
             bad.setdefault(kind, []).append(rr)
     for kind, lst in bad.items():
-        rr = lst[0]
-        rep = dict(rr['replay'])
-        rep['expect'] = kind if not kind.startswith('exception') else None
-        chars = sorted(set(x['text'] for x in lst))
-        c.violation('C13:ini:%s' % kind, 'an answer typed at the prompt does not survive write-back / re-read: %s for answers %s%s' % (kind, chars[:6], ' ...' if len(chars) > 6 else ''), rep)
+        # keyed by the character that makes the answer fail (a finding about '%' must not hide
+        # answers that fail for another reason); many different characters = any answer
+        by_char = {}
+        for rr in lst:
+            by_char.setdefault(rr['char'], []).append(rr)
+        if len(by_char) > 8:
+            groups = {'any-answer': lst}
+        else:
+            groups = by_char
+        for ch, sub in sorted(groups.items()):
+            rr = sub[0]
+            rep = dict(rr['replay'])
+            rep['expect'] = kind if not kind.startswith('exception') else None
+            texts = sorted(set(x['text'] for x in sub))
+            c.violation('C13:ini:%s:%s' % (kind, ch), 'an answer typed at the prompt does not survive write-back / re-read: %s for answers %s%s' % (kind, texts[:6], ' ...' if len(texts) > 6 else ''), rep)
     c.extra['ini_sessions'] = len(results)
 
 
